@@ -29,6 +29,10 @@
 #include <sys/wait.h>
 #include <sys/time.h>
 
+#if defined(__SANITIZE_ADDRESS__)
+extern "C" int __lsan_do_recoverable_leak_check(void);
+#endif
+
 namespace pbt {
 
 struct Case {
@@ -147,6 +151,10 @@ inline bool run_forked(Body body, const Case &c, Ctx &ctx)
         sh->nclasses = 0;
         for (auto *n : cc.classes) { if (sh->nclasses < 16) { strncpy(sh->classes[sh->nclasses], n, 47); sh->nclasses++; } }
         strncpy(sh->why, cc.why.c_str(), sizeof(sh->why) - 1);
+#if defined(__SANITIZE_ADDRESS__)
+        // object lifetimes: everything the case allocated through the library must be released by now
+        if (ok && getenv("PBT_LEAKCHECK") && __lsan_do_recoverable_leak_check()) { ok = false; strncpy(sh->why, "LeakSanitizer: memory allocated during the case was never released (see stderr)", sizeof(sh->why) - 1); }
+#endif
         sh->status = ok ? 1 : 2;
         fflush(stderr);
         _exit(0);
@@ -184,7 +192,7 @@ struct Options {
     std::string out, replay, only, hashdump, faildir = ".";
     std::vector<std::string> excludes;
     bool nofork = false, forkall = false, enumerate = false;
-    uint64_t nworkers = 1;
+    uint64_t nworkers = 1, enum_stride = 1;
     int level = 0;
     std::string casefile;
 };
@@ -273,6 +281,7 @@ inline int harness_main(int argc, char **argv, const char *harness, std::vector<
         else if (a == "--enumerate") o.enumerate = true;
         else if (a == "--nworkers") o.nworkers = strtoull(nxt().c_str(), 0, 0);
         else if (a == "--level") o.level = atoi(nxt().c_str());
+        else if (a == "--enum-stride") o.enum_stride = std::max<uint64_t>(1, strtoull(nxt().c_str(), 0, 0));
         else if (a == "--casefile") o.casefile = nxt();
         else if (a == "--timeout") fork_timeout() = atoi(nxt().c_str());
         else if (a == "--list") { for (auto &p : props) printf("%s\n", p.name.c_str()); return 0; }
@@ -328,7 +337,9 @@ inline int harness_main(int argc, char **argv, const char *harness, std::vector<
             if (!p.enum_count) continue;
             uint64_t n = p.enum_count();
             stats().classes["enumerated-space-size:" + p.name] = n;
-            for (uint64_t i = o.worker; i < n; i += (o.nworkers ? o.nworkers : 1)) {
+            // --enum-stride K: visit every K-th point only (a sample of the space, phase chosen by the seed); K = 1 is the complete walk
+            const uint64_t step = (o.nworkers ? o.nworkers : 1) * o.enum_stride;
+            for (uint64_t i = o.worker * o.enum_stride + (o.enum_stride > 1 ? mix(o.seed, 17) % o.enum_stride : 0); i < n; i += step) {
                 Case c; c.prop = p.name; c.v = p.enum_at(i);
                 Ctx ctx;
                 casefile_note(c);
